@@ -100,7 +100,11 @@ def main():
                   "baseline_off_cmd": "cd /repo && /venv/bin/python -m pytest -ra -q -p no:cacheprovider --timeout=900 --continue-on-collection-errors",
                   "source_commits": [], "add_only": True},
         "engines": [{"name": "vsx", "path": "vsx/", "serves_properties": claimed,
-                     "kind_free_text": "bounded symbolic executor for the repository's Python source (AST interpreter with predicated execution and value forking) deciding obligations with z3; counterexamples replayed on CPython"}],
+                     "kind_free_text": "bounded symbolic executor for the repository's Python source (AST interpreter with predicated execution and value forking) deciding obligations with z3; counterexamples replayed on CPython"},
+                    {"name": "cvc5-second-opinion", "path": "vsx/second.py", "serves_properties": ["C07", "C08", "C11", "C12", "C13"],
+                     "kind_free_text": "thorough tier: every discharged obligation is dumped as SMT-LIB2 and re-decided by cvc5; also proves the QF_BVFP lemmas behind int(a/k), math.floor, math.ceil"},
+                    {"name": "crosshair", "path": "crosshair/", "serves_properties": ["C07", "C13"],
+                     "kind_free_text": "thorough tier: CrossHair contracts over the real functions as a second symbolic engine; disagreement with vsx is an error"}],
         "checks": checks,
         "notes": "All checks: exit 0 = every obligation unsat within the declared bounds; exit 1 = counterexample reproduced natively (VIOLATION line); exit 2 = inconclusive. VERIF_REPO overrides /repo (used for mutants).",
         "not_applicable": na,
